@@ -25,6 +25,7 @@ import json
 import os
 import re
 
+import covutil
 import vlib
 
 LEVEL = "model_checking"
@@ -244,8 +245,8 @@ def run(ctx):
     # ---- model: corrected design race-free for every pair; atomicity properties; no lock cycle
     r = vlib.tlc(ctx, "Concurrency", cfg(PAIRS + TRIPLES, ninc=3 if ctx.thorough else 2), label="Concurrency-corrected",
                  coverage=ctx.thorough)
-    if r.zero_cov:
-        raise vlib.InfraError("actions never taken in Concurrency.tla: %s" % r.zero_cov)
+    if covutil.final_zero_cov(r.stdout):
+        raise vlib.InfraError("actions never taken in Concurrency.tla: %s" % covutil.final_zero_cov(r.stdout))
     table = model_table(ctx, devs, "Concurrency-open-devs") if devs else set()
     for d in devs:
         if not any(any(site in DEV_SITES[d] for _a, site in k) for k in table):
